@@ -462,8 +462,11 @@ def r_hybrid(ctx, a):
     s = float(np.abs(fld).max() + 1) * 8
     for ij in np.ndindex(*xy):
         spv = sp[ij]
-        cen = np.asarray(hc.get_sigma_centers(spv))
-        ctx.corr('HybridCoordinates.get_sigma_centers', cen, ctx.model.call(12, [nH], [aa, bb, [spv]]), scale=float(np.abs(cen).max()) + 1)
+        cen_impl = np.asarray(hc.get_sigma_centers(spv))
+        ctx.corr('HybridCoordinates.get_sigma_centers', cen_impl, ctx.model.call(12, [nH], [aa, bb, [spv]]), scale=float(np.abs(cen_impl).max()) + 1)
+        bnd = aa / spv + bb                     # documented: level pressure = a + b*sp, i.e. sigma = a/sp + b
+        cen = (bnd[1:] + bnd[:-1]) / 2
+        ctx.oracle_close('hybrid sigma centers are the midpoints of a/sp + b', cen_impl, cen, scale=float(np.abs(cen).max()) + 1)
         for ld in np.ndindex(*lead):
             col = fld[ld + (slice(None),) + ij]; o = out[ld + (slice(None),) + ij]
             cmp_opt(ctx, 'interp_hybrid_to_sigma', o, ctx.model.call(8, [nH, K], [aa, bb, col, sig, [spv]]), s * 4)
